@@ -17,7 +17,7 @@ from vmon.libutil import load_definition, monitored
 LEVEL = "exploration"
 SHARDS = {"quick": 16, "thorough": 16}
 KINDS = ("integer", "float", "enumerated", "boolean", "string", "binary", "abstime", "reltime")
-MUST = ["datasets", "cells.compared", "mode.raw", "mode.derived", "files.multi", "files.truncated_tail_before_next_file", "apids.multi", "polymorphic.rejected", "manyrows.datasets", "files.form.generator", "files.form.iter", "files.form.tuple"] + [f"cells.{k}" for k in KINDS]
+MUST = ["datasets", "cells.compared", "mode.raw", "mode.derived", "files.multi", "files.truncated_tail_before_next_file", "apids.multi", "polymorphic.rejected", "reordered_fields.datasets", "manyrows.datasets", "files.form.generator", "files.form.iter", "files.form.tuple"] + [f"cells.{k}" for k in KINDS]
 RULE = ("case = (flat definition: abstract root + one concrete child container per APID, each with a fixed list of "
         "parameters of random kinds/encodings; packet files: 1-3 files (30% of them ending in a truncated packet, which is no "
         "packet of the stream), handed over as path / list / tuple / generator / iterator / map / Path list, 1-4 APIDs interleaved, values at encoding extremes "
@@ -366,3 +366,30 @@ def polymorphic(ctx, scratch):
         if not isinstance(st.exc, ValueError):
             ctx.violation("polymorphic/not-rejected", f"a stream whose APID 11 packets differ in field set gave {st.value!r} / {st.exc!r} instead of ValueError", {"order": order})
         ctx.sig("polymorphic", tuple(order))
+    # ---- the same field SET in a different field ORDER within one APID (two layouts listing the parameters in opposite
+    # orders): one field set, so a dataset is due, and every cell belongs to the variable of its own name
+    ka = ir.Container("KA", (("p", "A"), ("p", "B")), "CCSDSPacket", (ir.Comparison("SEL", "1"),))
+    kb = ir.Container("KB", (("p", "B"), ("p", "A")), "CCSDSPacket", (ir.Comparison("SEL", "2"),))
+    defn2 = load_definition(render.render_doc(ir.Doc(tuple(ts), tuple(ps), (root, ka, kb))))
+    for order in ([1, 2], [2, 1, 1, 2], [1, 1, 2, 2, 1]):
+        path = os.path.join(scratch, "reordered.bin")
+        exp_a, exp_b = [], []
+        with open(path, "wb") as f:
+            for j, sel in enumerate(order):
+                first, second = 10 + j, 200 - j
+                f.write(bytes(P.create_ccsds_packet(bytes([sel, first, second]), apid=11)))
+                a_, b_ = (first, second) if sel == 1 else (second, first)
+                exp_a.append(a_)
+                exp_b.append(b_)
+        for raw_mode in (False, True):
+            st = monitored(xarr.create_dataset, path, defn2, raw_mode)
+            ctx.count("evaluations")
+            ctx.count("reordered_fields.datasets")
+            wit = {"order_of_layouts": order, "mode": "raw" if raw_mode else "derived"}
+            if st.exc is not None:
+                ctx.violation(f"reordered-fields/exception/{type(st.exc).__name__}", f"one APID, one field set, two field orders: create_dataset raised {st.exc!r}", wit)
+                continue
+            got_a, got_b = [int(x) for x in st.value[11]["A"].values], [int(x) for x in st.value[11]["B"].values]
+            if got_a != exp_a or got_b != exp_b:
+                ctx.violation("reordered-fields/cells-in-wrong-variable", f"A={got_a} B={got_b}, parsed A={exp_a} B={exp_b}", dict(wit, A=got_a, B=got_b))
+        ctx.sig("reordered-fields", tuple(order))
